@@ -13,7 +13,7 @@ from ..check import nat_bytes, PathEnd
 from ..scn import ROOT, CACHE
 from ..engine import err_class
 
-HOSTILE_KEYS = ["a", "k\té\n\"\\", "../../x", "", "/abs", "A", "é", "é", "x" * 300, "nul\0key", "b"]
+HOSTILE_KEYS = ["a", "k\t\u00e9\n\"\\", "../../x", "", "/abs", "A", "\u00e9", "e\u0301", "x" * 300, "nul\0key", "b"]
 ALGOS = ["Sha256", "Sha1", "Sha512", "Sha384", "Xxh3"]
 MMAP_MAX = 1024 * 1024
 
